@@ -576,9 +576,14 @@ Definition scan_wfb (lo hi : bound) (ls : list (list entry)) (v : list (list fil
   distinctb (concat (ver_parts lo hi v)) &&
   distinctb (concat (top_parts lo hi ls v)).
 
+(* every entry of the memtables and of the version *)
+Definition all_entries (ls : list (list entry)) (v : list (list file)) : list entry :=
+  concat ls ++ concat (map f_ents (concat v)).
+
 (* at the state in which a scan is about to be opened *)
 Definition open_list (s : machine) (lo hi : bound) : list entry :=
   scan_list lo hi (ms_vis s) (map (look_of s) (open_mems s)) (cur_levels s).
 Definition open_wfb (c : cfg) (s : machine) (lo hi : bound) : bool :=
   scan_wfb lo hi (map (look_of s) (open_mems s)) (cur_levels s) &&
+  distinctb (all_entries (map (look_of s) (open_mems s)) (cur_levels s)) &&
   (total_size (map (look_of s) (open_mems s)) (cur_levels s) + 2 <=? cf_fuel c).
